@@ -15,8 +15,9 @@
 // are exact-size heap blocks.
 //
 // What the reference deliberately does NOT demand (statement is silent):
-// which characters a host / userinfo may contain, escapes inside the
-// authority, UTF-8 validity of query/fragment, the case of kept hex digits,
+// which characters a host / userinfo may contain (only invalid %XX in the
+// user info or a registered name is judged), the content of a bracketed literal,
+// UTF-8 validity of query/fragment, the case of kept hex digits,
 // whether %80-%FF are kept or decoded, whether "/a/." keeps its trailing
 // slash, the order of slash-collapsing vs dot-segment removal, and any
 // validation for the host-less schemes (ipc, unix, abstract, inproc,
@@ -35,6 +36,7 @@
 
 #include <ctype.h>
 #include <errno.h>
+#include <arpa/inet.h>
 #include <netdb.h>
 #include <signal.h>
 #include <sys/wait.h>
@@ -301,6 +303,9 @@ typedef struct {
 	bool        qf_utf8_ok; // decoded query and fragment are valid UTF-8
 	int         hostkind, portkind;
 	unsigned    pf;
+	// open verdicts (statement silent; counted, never flagged)
+	bool        auth_ctl; // blank / control byte in the authority
+	bool        v6_bad;   // bracketed host that is neither an IPv6 address (inet_pton) nor IPvFuture
 } ref_url;
 
 static uint8_t dec_tmp[NB];
@@ -350,6 +355,7 @@ ref_parse(const char *in, ref_url *r)
 	r->hostkind = HK_NONE;
 	r->portkind = PK_NONE;
 	r->pf = 0;
+	r->auth_ctl = r->v6_bad = false;
 
 	for (int i = 0; i < NSCHEMES; i++) {
 		size_t l = strlen(ref_schemes[i]);
@@ -385,6 +391,9 @@ ref_parse(const char *in, ref_url *r)
 	char        auth[MAXIN];
 	memcpy(auth, rest, alen);
 	auth[alen] = 0;
+	for (size_t i = 0; i < alen; i++) {
+		if ((unsigned char) auth[i] <= 0x20 || auth[i] == 0x7f) r->auth_ctl = true;
+	}
 
 	// userinfo
 	char *hp = auth;
@@ -416,6 +425,28 @@ ref_parse(const char *in, ref_url *r)
 			return;
 		}
 		r->hostkind = (strchr(r->host, ':') && !strchr(r->host, '[')) ? HK_V6 : HK_ODD;
+		{ // is the literal an IP address at all?  (open verdict)
+			char   lit[64];
+			size_t ll = strcspn(r->host, "%");
+			struct in6_addr a6;
+			bool   ok = false;
+			if (ll < sizeof(lit)) {
+				memcpy(lit, r->host, ll);
+				lit[ll] = 0;
+				ok = inet_pton(AF_INET6, lit, &a6) == 1 && (r->host[ll] == 0 || r->host[ll + 1] != 0);
+				if (!ok && (lit[0] == 'v' || lit[0] == 'V') && r->host[ll] == 0) { // IPvFuture
+					size_t i = 1;
+					while (is_hex((unsigned char) lit[i])) i++;
+					if (i > 1 && lit[i] == '.' && lit[i + 1] != 0) {
+						ok = true;
+						for (i++; lit[i]; i++) {
+							if (!is_unres((unsigned char) lit[i]) && strchr("!$&'()*+,;=:", lit[i]) == NULL) ok = false;
+						}
+					}
+				}
+			}
+			r->v6_bad = !ok;
+		}
 	} else {
 		char *c = strchr(hp, ':');
 		if (c != NULL) {
@@ -438,6 +469,18 @@ ref_parse(const char *in, ref_url *r)
 	}
 	if (strlen(r->host) >= 256) {
 		rej(r, "host-too-long");
+		return;
+	}
+	// "valid percent-escapes" is unqualified in the statement: a '%' in the
+	// user info or in a registered name must start %XX.  A bracketed
+	// literal is exempt: its '%' introduces the zone identifier
+	// ([fe80::1%eth0]), which nng passes on to getaddrinfo.
+	if (r->has_userinfo && !escapes_valid(r->userinfo, strlen(r->userinfo))) {
+		rej(r, "escape-invalid/userinfo");
+		return;
+	}
+	if (hp[0] != '[' && !escapes_valid(r->host, strlen(r->host))) {
+		rej(r, "escape-invalid/host");
 		return;
 	}
 	if (portstr != NULL) {
@@ -581,14 +624,23 @@ take_snap(const nng_url *u, snap *s)
 	s->port = nng_url_port(u);
 }
 
-// White-box: does p point into u's own storage?
+// White-box: does the whole string p (including its terminator) lie in the
+// storage u owns - the inline array, or the heap buffer of u_bufsz bytes?
+// (An overflow of u_static inside a larger object, e.g. a dialer, is not
+// visible to ASan; a heap buffer whose recorded size is short is copied
+// short by clone.)
 static bool
 in_own_storage(const nng_url *u, const char *p)
 {
-	const char *lo = (const char *) u, *hi = lo + sizeof(*u);
-	if (p >= lo && p < hi) return true;
-	if (u->u_bufsz != 0 && u->u_buffer != NULL && p >= u->u_buffer && p < u->u_buffer + u->u_bufsz) return true;
-	return false;
+	const char *lo, *hi;
+	if (u->u_bufsz != 0 && u->u_buffer != NULL) {
+		lo = u->u_buffer;
+		hi = lo + u->u_bufsz;
+	} else {
+		lo = u->u_static;
+		hi = lo + sizeof(u->u_static);
+	}
+	return p >= lo && p < hi && memchr(p, 0, (size_t) (hi - p)) != NULL;
 }
 
 // Compare u with a snapshot.  Returns the name of the first differing
@@ -604,7 +656,8 @@ cmp_one(const nng_url *u, const char *got, bool have, const char *want, const ch
 	}
 	if (got == NULL) return NULL;
 	if (own && !in_own_storage(u, got)) {
-		snprintf(why, wsz, "%s points outside the URL's own storage", name);
+		snprintf(why, wsz, "%s is not a terminated string inside the URL's own storage (%s, %zu bytes)", name,
+		    u->u_bufsz ? "heap" : "inline", u->u_bufsz ? u->u_bufsz : sizeof(u->u_static));
 		return "storage";
 	}
 	if (strcmp(got, want) != 0) {
@@ -642,7 +695,11 @@ static bool    quarantine[4]; // clone class whose canary crashed
 static const char *const cls_names[4] = { "hosted-inline", "hosted-heap", "hostless-inline", "hostless-heap" };
 static long    n_cases, n_accept, n_reject, n_overstrict, n_round, n_clone, n_clone_heap,
     n_clone_hostless, n_clone_skip, n_heap_urls, n_portmut, n_free_src_first, n_free_clone_first,
-    n_ref_compared, n_hostless_acc, n_strict_fired, n_trunc;
+    n_ref_compared, n_hostless_acc, n_strict_fired, n_trunc, n_overstrict_unexplained, n_storage,
+    n_ep_try, n_ep_ok, n_ep_ok_heap, n_ep_notsup, n_ep_refused, n_ep_form[4];
+static nng_socket ep_sock;
+static bool       ep_ready;
+static long       n_listen_try, n_listen_ok, n_listen_heap, n_listen_fail, n_listen_port, n_listen_dialer;
 
 static void
 viol(const char *clause, const char *disc, const char *input, const char *fmt, ...)
@@ -876,6 +933,78 @@ check_clone_and_free(nng_url *u, const char *input, int cls, uint64_t h)
 	}
 }
 
+// every string of a freshly parsed URL lies inside the storage it records
+static bool
+check_storage(const nng_url *u, const char *input, const char *what)
+{
+	const char *comp[5] = { nng_url_userinfo(u), nng_url_hostname(u), nng_url_path(u), nng_url_query(u), nng_url_fragment(u) };
+	static const char *const cn[5] = { "userinfo", "hostname", "path", "query", "fragment" };
+	n_storage++;
+	if (u->u_bufsz == 0 && u->u_buffer != u->u_static) {
+		viol("storage/inline-buffer-pointer", what, input, "u_bufsz is 0 but u_buffer does not point at u_static");
+		return false;
+	}
+	for (int k = 0; k < 5; k++) {
+		if (comp[k] != NULL && !in_own_storage(u, comp[k])) {
+			char disc[64];
+			snprintf(disc, sizeof(disc), "%s/%s/%s", cn[k], what, u->u_bufsz ? "heap" : "inline");
+			viol("storage/string-outside-buffer", disc, input, "%s is not a terminated string inside the %s buffer of %zu bytes",
+			    cn[k], u->u_bufsz ? "heap" : "inline", u->u_bufsz ? u->u_bufsz : sizeof(u->u_static));
+			return false;
+		}
+	}
+	return true;
+}
+
+// The embedded forms: dialers and listeners hold a struct nng_url inside
+// their own object, filled by nni_url_clone_inline (create_url) or
+// nni_url_parse_inline (create from a string).  What the endpoint reports
+// must equal what nng_url_parse gave for the same input.
+static const char *const ep_forms[4] = { "dialer-url", "dialer-string", "listener-url", "listener-string" };
+
+static void
+check_endpoint(const nng_url *u, const char *input, uint64_t h, bool heap)
+{
+	char           why[900], disc[96];
+	int            form = (int) (h & 3), rv;
+	nng_dialer     d = NNG_DIALER_INITIALIZER;
+	nng_listener   l = NNG_LISTENER_INITIALIZER;
+	const nng_url *eu = NULL;
+	if (!ep_ready) return;
+	n_ep_try++;
+	switch (form) {
+	case 0: rv = nng_dialer_create_url(&d, ep_sock, u); break;
+	case 1: rv = nng_dialer_create(&d, ep_sock, input); break;
+	case 2: rv = nng_listener_create_url(&l, ep_sock, u); break;
+	default: rv = nng_listener_create(&l, ep_sock, input); break;
+	}
+	if (rv == NNG_ENOTSUP) {
+		n_ep_notsup++;
+		return;
+	}
+	if (rv != 0) { // the transport does not like this address
+		n_ep_refused++;
+		vf_class("endpoint|refused|%s|%s|rv=%d", ep_forms[form], S.scheme, rv);
+		return;
+	}
+	rv = form < 2 ? nng_dialer_get_url(d, &eu) : nng_listener_get_url(l, &eu);
+	if (rv != 0 || eu == NULL) {
+		viol("endpoint/get-url-failed", ep_forms[form], input, "get_url returned %d", rv);
+	} else {
+		n_ep_ok++;
+		n_ep_form[form]++;
+		if (heap) n_ep_ok_heap++;
+		vf_class("endpoint|ok|%s|%s|%s", ep_forms[form], S.scheme, heap ? "heap" : "inline");
+		const char *dd = cmp_snap(eu, &S, true, true, why, sizeof(why));
+		if (dd != NULL) {
+			snprintf(disc, sizeof(disc), "%s-differs/%s/%s", dd, ep_forms[form], heap ? "heap" : "inline");
+			viol("endpoint", disc, input, "%s reports %s", ep_forms[form], why);
+		}
+	}
+	if (form < 2) nng_dialer_close(d);
+	else nng_listener_close(l);
+}
+
 static const char *const hk_names[] = { "-", "empty", "name", "v4", "v6", "odd" };
 static const char *const pk_names[] = { "none", "num", "svc", "bad" };
 
@@ -907,14 +1036,29 @@ run_case(const char *in, const char *wl, const char *cdetail)
 				if (b >= 0xe0) mb = true;
 			}
 			n_overstrict++;
-			const char *ok = mb ? "3-4-byte-utf8" : (!R.hostless && R.hostkind == HK_ODD) ? "odd-host" : "other";
-			vf_stat(mb ? "overstrict_with_3or4_byte_utf8" : !strcmp(ok, "odd-host") ? "overstrict_odd_host" : "overstrict_other", 1);
+			// Explained: the reference is lenient where the statement is
+			// silent (odd host characters, blanks/control bytes, non-address
+			// literals, odd user info), so nng may legitimately be
+			// stricter there.  Anything else is an unexplained refusal and
+			// makes the "accepts only if" verdict partly vacuous.
+			bool odd_ui = false;
+			for (const char *c = R.userinfo; R.has_userinfo && *c; c++) {
+				if (!is_unres((unsigned char) *c) && *c != ':' && *c != '%') odd_ui = true;
+			}
+			const char *ok = R.hostless ? "other" : (R.hostkind == HK_ODD || R.v6_bad) ? "odd-host" : R.auth_ctl ? "authority-blank-or-control" : odd_ui ? "odd-userinfo" : mb ? "3-4-byte-utf8" : "other";
+			bool        unexplained = !strcmp(ok, "other") || !strcmp(ok, "3-4-byte-utf8");
+			if (unexplained) n_overstrict_unexplained++;
+			vf_stat(!strcmp(ok, "other") ? "overstrict_other" : !strcmp(ok, "3-4-byte-utf8") ? "overstrict_with_3or4_byte_utf8" : "overstrict_explained", 1);
 			vf_class("%s|overstrict|rv=%d|%s|%s|%s", wl, rv, ref_schemes[R.scheme], ok, cdetail ? cdetail : "");
-			if (n_overstrict <= 2 || !strcmp(ok, "other")) vf_sample("{\"overstrict_rejected\":\"%s\",\"rv\":%d}", esc(input), rv);
+			if (n_overstrict <= 2 || unexplained) vf_sample("{\"overstrict_rejected\":\"%s\",\"rv\":%d,\"kind\":\"%s\"}", esc(input), rv, ok);
 		} else if (cdetail != NULL) {
 			vf_class("%s|rej|%s|%s", wl, R.accept ? u_names[R.path_utf8] : R.reason, cdetail);
 		} else {
 			vf_class("%s|rej|rv=%d|%s", wl, rv, R.accept ? (R.path_utf8 ? u_names[R.path_utf8] : "qf-utf8") : R.reason);
+		}
+		if (!R.hostless && R.scheme >= 0) {
+			if (R.auth_ctl) vf_stat("open_authority_blank_or_control_driven", 1);
+			if (R.v6_bad) vf_stat("open_bracket_literal_not_an_address_driven", 1);
 		}
 		free(input);
 		return false;
@@ -927,6 +1071,21 @@ run_case(const char *in, const char *wl, const char *cdetail)
 		return true;
 	}
 	take_snap(u, &S);
+	if (R.scheme >= 0 && !R.hostless) { // open verdicts: counted, not judged
+		if (R.auth_ctl) {
+			vf_stat("open_authority_blank_or_control_driven", 1);
+			vf_stat("open_authority_blank_or_control_accepted", 1);
+		}
+		if (R.v6_bad) {
+			vf_stat("open_bracket_literal_not_an_address_driven", 1);
+			vf_stat("open_bracket_literal_not_an_address_accepted", 1);
+		}
+	}
+	if (!check_storage(u, input, "parse")) { // do not read strings that are not strings
+		nng_url_free(u);
+		free(input);
+		return true;
+	}
 
 	const char *sc = nng_url_scheme(u);
 	bool        nohost = sc != NULL && scheme_hostless(sc);
@@ -962,6 +1121,7 @@ run_case(const char *in, const char *wl, const char *cdetail)
 		}
 	}
 	check_roundtrip(u, input, h >> 8);
+	if (((h >> 40) & 15) == 0 || (heap && ((h >> 40) & 3) == 0)) check_endpoint(u, input, h >> 44, heap);
 	check_clone_and_free(u, input, (nohost ? 2 : 0) | (heap ? 1 : 0), h);
 	free(input);
 	return true;
@@ -1096,6 +1256,7 @@ sb_fill(sb *b, char c, size_t n)
 // ---------------------------------------------------------------- enum mode
 static long e_idx;
 static long e_done;
+static long n_utf8_enum, n_utf8_valid[3], n_utf8_valid_acc[3];
 
 static bool
 e_take(void)
@@ -1131,8 +1292,17 @@ utf8_case(const int *b, int n, int fol, bool raw, const char *wl)
 	sb_add(&u, raw ? followers_raw[fol] : followers_pct[fol]);
 	snprintf(cd, sizeof(cd), "%s|%s", raw ? "raw" : "pct", fol_names[fol]);
 	bool acc = run_case(u.s, wl, cd);
-	vf_stat("utf8_enum", 1);
-	if (acc && n >= 2 && b[0] >= 0xc2) vf_stat("utf8_enum_accepted_multibyte", 1);
+	n_utf8_enum++;
+	// vacuity guard: a well-formed multi-byte sequence (as bytes), in an
+	// input the reference accepts as a whole, must be seen accepted -
+	// otherwise the strict/utf8-* oracles pass trivially
+	uint8_t raw4[4];
+	for (int i = 0; i < n; i++) raw4[i] = (uint8_t) b[i];
+	if (n >= 2 && b[0] >= 0xc2 && utf8_check(raw4, (size_t) n) == U_OK && R.accept && R.path_utf8 == U_OK && R.qf_utf8_ok) {
+		int k = b[0] < 0xe0 ? 0 : b[0] < 0xf0 ? 1 : 2;
+		n_utf8_valid[k]++;
+		if (acc) n_utf8_valid_acc[k]++;
+	}
 }
 
 static void
@@ -1285,6 +1455,105 @@ enum_authority(void)
 					vf_class("auth|host%zu|port%zu|%s", h, p, acc ? "acc" : "rej");
 					vf_stat("authority_matrix", 1);
 				}
+}
+
+// Started listeners: the URL lives inside the listener object, is bound
+// (port 0 is resolved through nng_url_resolve_port on the embedded struct)
+// and must still be the URL that was given, for lengths on both sides of
+// the inline buffer.  A dialer created from the reported URL must agree.
+static void
+enum_listen(void)
+{
+	static const int lens[] = { 24, 100, 120, 124, 125, 126, 127, 128, 129, 130, 131, 132, 136, 160, 200, 256, 300, 390 };
+	static const char *const heads[] = { "ws://127.0.0.1:0/", "ws4://127.0.0.1:0/", "ws://localhost:0/", "tcp://127.0.0.1:0", "tcp4://127.0.0.1:0",
+		"inproc://c19-listen-", "ws://127.0.0.1:0/p?q=" };
+	char why[900];
+	for (size_t hd = 0; hd < sizeof(heads) / sizeof(heads[0]); hd++) {
+		for (size_t li = 0; li < sizeof(lens) / sizeof(lens[0]); li++) {
+			if (!e_take()) continue;
+			bool tcp = !strncmp(heads[hd], "tcp", 3);
+			if (tcp && li > 0) continue; // tcp URLs carry no path
+			sb u;
+			sb_init(&u);
+			sb_add(&u, heads[hd]);
+			const char *sep = strstr(u.s, "://");
+			char        tag[40];
+			snprintf(tag, sizeof(tag), "%d.%d.%zu.", (int) getpid(), vf_shard, li);
+			if (!tcp) {
+				sb_add(&u, tag);
+				while (strlen(sep) < (size_t) lens[li]) sb_addc(&u, 'a' + (char) (strlen(sep) % 26));
+			}
+			bool heap = strlen(strstr(u.s, "://")) >= 128;
+			vf_case_begin(e_idx - 1, "listen: %s", u.s);
+			n_listen_try++;
+			nng_url *pu = NULL;
+			if (nng_url_parse(&pu, u.s) != 0) vf_harness_fail("listen workload URL rejected: %s", u.s);
+			take_snap(pu, &S);
+			nng_url_free(pu);
+			nng_listener l;
+			int          rv = nng_listener_create(&l, ep_sock, u.s);
+			bool         created = rv == 0;
+			if (rv == 0) rv = nng_listener_start(l, 0);
+			if (rv != 0) { // no such address family here, etc.
+				n_listen_fail++;
+				vf_class("listen|failed|%s|%s|rv=%d", heads[hd], created ? "start" : "create", rv);
+				if (vf_verbose) fprintf(stderr, "listen %s failed in %s: %s\n", u.s, created ? "start" : "create", nng_strerror(rv));
+				if (created) nng_listener_close(l);
+				continue;
+			}
+			const nng_url *eu = NULL;
+			if (nng_listener_get_url(l, &eu) != 0 || eu == NULL) {
+				viol("endpoint/get-url-failed", "listener-started", u.s, "nng_listener_get_url failed");
+				nng_listener_close(l);
+				continue;
+			}
+			n_listen_ok++;
+			if (heap) n_listen_heap++;
+			bool wantport = S.hh && S.port == 0; // hosted scheme bound to port 0
+			if (wantport) {
+				uint32_t p = nng_url_port(eu);
+				if (p == 0 || p > 65535) {
+					viol("endpoint/port-not-resolved", heap ? "heap" : "inline", u.s, "started listener reports port %u", p);
+				} else {
+					n_listen_port++;
+				}
+				S.port = p;
+			}
+			const char *d = cmp_snap(eu, &S, true, true, why, sizeof(why));
+			if (d != NULL) {
+				char disc[96];
+				snprintf(disc, sizeof(disc), "%s-differs/listener-started/%s", d, heap ? "heap" : "inline");
+				viol("endpoint", disc, u.s, "started listener reports %s", why);
+			} else { // format, parse again, and hand the embedded URL to a dialer
+				char buf[MAXIN];
+				int  n = nng_url_sprintf(buf, sizeof(buf), eu);
+				nng_url *u2 = NULL;
+				if (n <= 0 || n >= (int) sizeof(buf) || nng_url_parse(&u2, buf) != 0) {
+					viol("endpoint/reparse-rejected", "listener-started", u.s, "formatted \"%s\"", n > 0 ? esc(buf) : "?");
+				} else {
+					if ((d = cmp_snap(u2, &S, false, false, why, sizeof(why))) != NULL) {
+						char disc[96];
+						snprintf(disc, sizeof(disc), "%s-differs/listener-started-reparsed", d);
+						viol("endpoint", disc, u.s, "formatted \"%s\" parses with %s", esc(buf), why);
+					}
+					nng_url_free(u2);
+				}
+				nng_dialer     dl;
+				const nng_url *du = NULL;
+				if (nng_dialer_create_url(&dl, ep_sock, eu) == 0) {
+					if (nng_dialer_get_url(dl, &du) == 0 && du != NULL && (d = cmp_snap(du, &S, true, true, why, sizeof(why))) != NULL) {
+						char disc[96];
+						snprintf(disc, sizeof(disc), "%s-differs/dialer-from-listener/%s", d, heap ? "heap" : "inline");
+						viol("endpoint", disc, u.s, "dialer created from the listener's URL reports %s", why);
+					}
+					n_listen_dialer++;
+					nng_dialer_close(dl);
+				}
+			}
+			vf_class("listen|ok|%s|%s|port%d", heads[hd], heap ? "heap" : "inline", wantport);
+			nng_listener_close(l);
+		}
+	}
 }
 
 static const char *const corpus[] = { "http://www.google.com", "http://www.google.com:1234", "http://www.google.com:1234/somewhere",
@@ -1609,6 +1878,62 @@ report_stats(void)
 	vf_stat("clone_port_mutations", n_portmut);
 	vf_stat("clone_freed_source_first", n_free_src_first);
 	vf_stat("clone_freed_clone_first", n_free_clone_first);
+	vf_stat("utf8_enum", n_utf8_enum);
+	static const char *const un[3] = { "2byte", "3byte", "4byte" };
+	for (int i = 0; i < 3; i++) {
+		char k[64];
+		snprintf(k, sizeof(k), "utf8_enum_valid_%s", un[i]);
+		vf_stat(k, n_utf8_valid[i]);
+		snprintf(k, sizeof(k), "utf8_enum_valid_%s_accepted", un[i]);
+		vf_stat(k, n_utf8_valid_acc[i]);
+	}
+	vf_stat("listen_tried", n_listen_try);
+	vf_stat("listen_started_compared", n_listen_ok);
+	vf_stat("listen_started_heap", n_listen_heap);
+	vf_stat("listen_failed_to_start", n_listen_fail);
+	vf_stat("listen_port_resolved", n_listen_port);
+	vf_stat("listen_dialer_from_listener", n_listen_dialer);
+	vf_stat("overstrict_unexplained", n_overstrict_unexplained);
+	vf_stat("storage_checked", n_storage);
+	vf_stat("endpoint_tried", n_ep_try);
+	vf_stat("endpoint_compared", n_ep_ok);
+	vf_stat("endpoint_compared_heap", n_ep_ok_heap);
+	vf_stat("endpoint_scheme_without_transport", n_ep_notsup);
+	vf_stat("endpoint_refused_by_transport", n_ep_refused);
+	for (int i = 0; i < 4; i++) {
+		char k[64];
+		snprintf(k, sizeof(k), "endpoint_compared_%s", ep_forms[i]);
+		vf_stat(k, n_ep_form[i]);
+	}
+}
+
+static void
+endpoint_open(void)
+{
+	int rv = nng_pair0_open(&ep_sock);
+	if (rv != 0) vf_harness_fail("nng_pair0_open: %s", nng_strerror(rv));
+	ep_ready = true;
+}
+
+static void
+endpoint_close(void)
+{
+	if (ep_ready) {
+		ep_ready = false;
+		nng_socket_close(ep_sock);
+	}
+}
+
+// Unexplained over-rejection makes "accepts only if" partly vacuous: the run
+// is then inconclusive (never a violation - the property does not forbid it).
+static void
+vacuity_guard(void)
+{
+	if (n_overstrict_unexplained > 0) {
+		vf_harness_fail("nng refused %ld inputs the strict reference accepts for reasons the reference does not leave open "
+		                "(see samples overstrict_rejected / stats overstrict_*): the accept-only-if verdict would be vacuous for them",
+		    n_overstrict_unexplained);
+	}
 }
 
 #ifndef C19_NO_MAIN
@@ -1618,6 +1943,7 @@ main(int argc, char **argv)
 	vf_init(argc, argv);
 	if (vf_only < 0 || vf_only >= CANARY_BASE) run_canaries();
 	vf_nng_init(1, 1, 1);
+	endpoint_open();
 	if (vf_only < CANARY_BASE) {
 		if (!strncmp(vf_mode, "lit:", 4)) { // judge one literal URL (debugging aid)
 			vf_verbose = 1;
@@ -1626,6 +1952,7 @@ main(int argc, char **argv)
 			fprintf(stderr, "nng %s; reference %s %s\n", acc ? "accepts" : "rejects", R.accept ? "accepts" : "rejects", R.reason);
 		} else if (!strcmp(vf_mode, "enum")) {
 			enum_corpus();
+			enum_listen();
 			enum_schemes();
 			enum_authority();
 			enum_lengths();
@@ -1635,7 +1962,10 @@ main(int argc, char **argv)
 		}
 	}
 	report_stats();
+	endpoint_close();
 	vf_nng_fini("C19");
-	return vf_finish();
+	int rc = vf_finish();
+	vacuity_guard();
+	return rc;
 }
 #endif // C19_NO_MAIN
